@@ -64,16 +64,16 @@ Definition reserved (x : string) : bool := String.eqb x "inter_send" || String.e
 
 (* ---- some_inter_var / oneshot_get_type ---- *)
 Inductive ivar := IEnd (k : endk) (a : string) | IGet (x g : string).
-(* `if target.eq(target)`: the NAME of the last segment is never compared with Sender / Receiver *)
-Definition oneshot_get_type (t : ty) : option string :=
-  match t with TPath _ _ (ATy a) => Some a | _ => None end.
+(* the last segment must be named `target` (Sender / Receiver) and carry a type as its first argument *)
+Definition oneshot_get_type (t : ty) (target : string) : option string :=
+  match t with TPath _ last (ATy a) => if String.eqb last target then Some a else None | _ => None end.
 Definition some_inter_var (x : string) (t : ty) (ret : bool) : diag + ivar :=
   if prefix "inter_" x then
     let second := drop 6 x in
     if String.eqb second "send" then
-      if ret then inl DEndInRet else match oneshot_get_type t with Some a => inr (IEnd ESend a) | None => inl DEndType end
+      if ret then inl DEndInRet else match oneshot_get_type t "Sender" with Some a => inr (IEnd ESend a) | None => inl DEndType end
     else if String.eqb second "recv" then
-      if ret then inl DEndInRet else match oneshot_get_type t with Some a => inr (IEnd ERecv a) | None => inl DEndType end
+      if ret then inl DEndInRet else match oneshot_get_type t "Receiver" with Some a => inr (IEnd ERecv a) | None => inl DEndType end
     else inr (IGet x ("inter_get_" ++ second))
   else inl DMixed.
 
@@ -150,10 +150,9 @@ Definition getters_of (ps : list param) : list (string * string) :=
   flat_map (fun q => match fst q with
                      | PId x => if prefix "inter_" x && negb (reserved x) then [(x, "inter_get_" ++ drop 6 x)] else []
                      | _ => [] end) ps.
-(* known class (F10): an end parameter whose declared type does not name the end it asks for *)
+(* an end parameter whose declared type names the end it asks for *)
 Definition end_type_named (q : param) : bool :=
   match end_of q with
   | Some (k, TPath _ last _) => String.eqb last (end_type_name k)
   | Some (_, TOther _) => false
   | None => true end.
-Definition known_class (ps : list param) : bool := negb (forallb end_type_named ps).
